@@ -98,7 +98,7 @@ CHECKS = {
    "DESIGN.md §3 C20"),
  "C18": ("E-STATE+E-SCHED", "model_checking",
    "stateless model checking of the real server process under a controlled scheduler (hook points, iterative preemption bounding) plus exhaustive in-process multi-Server delivery/step histories",
-   "In-process: all sequences of depth 7 (thorough 8) over deliver(w)/step(w) for W=2 (thorough also W=3) real Servers from one seed. Controlled: N=2 workers, K=2 requests (thorough: N,K in {2,3}, every distribution realised through the learned SO_REUSEPORT port->worker map), all interleavings of worker batch steps and environment sends up to preemption bound 2 (thorough 3). Oracle: one authentic reply per request from the worker it was delivered to under the single long-term key, stable distinct delegated keys, no thread exit/panic, all workers idle at the end.",
+   "In-process: all sequences of depth 6 (thorough 8) over deliver(w)/step(w) for W=2 (thorough also W=3) real Servers from one seed. Controlled: N=2 workers, K=2 requests (thorough: N,K in {2,3}, every distribution realised through the learned SO_REUSEPORT port->worker map), all interleavings of worker batch steps and environment sends up to preemption bound 2 (thorough 3). Oracle: one authentic reply per request from the worker it was delivered to under the single long-term key, stable distinct delegated keys, no thread exit/panic, all workers idle at the end.",
    "Interleavings at hook granularity; weak-memory effects not modelled; the thorough tier's 16-worker closed-loop run is sampled conformance evidence.",
    "DESIGN.md §3 C18"),
  "C19": ("E-SCHED", "model_checking",
